@@ -3,6 +3,7 @@ package props
 import (
 	"fmt"
 	"go/ast"
+	"go/token"
 	"go/types"
 	"sort"
 
@@ -117,5 +118,106 @@ func c04Stale(c *core.Ctx) {
 	for _, h := range hits {
 		c.Ob("C04-R7", fmt.Sprintf("%s#%s:=%s", h.fd.Name(), h.v.Name(), h.callee.Name()), h.def.Pos(), false,
 			fmt.Sprintf("`%s` is computed by %s from fields %v, which the statement at %s rewrites before `%s` is used: the first calculation sees the data as typed, a repeat sees it normalised", h.v.Name(), core.FuncName(h.callee), h.fields, p.Rel(h.writer.Pos()), h.v.Name()))
+	}
+}
+
+// c04InputsKept — C04-R8: presentation rounding of the document totals only
+// rewrites members that the recalculation itself produces, i.e. the members
+// Totals.reset clears. A member that reset leaves alone is taken as given by
+// the next pass (an externally provided rounding): rescaling it in place makes
+// the second pass start from other data than the first.
+//
+// C04-R9: an amount that is derived from a percentage (`x.Amount =
+// x.Percent.Of(base)`) is derived again on every pass: the assignment is not
+// conditioned on the current value of that amount, which after the first pass
+// is the rounded result of the derivation itself.
+func c04InputsKept(c *core.Ctx) {
+	p := c.P
+	c.Rule("C04-R8", "presentation rounding of the totals rewrites only members that reset clears", 5)
+	c.Rule("C04-R9", "amounts derived from a percentage are re-derived on every pass", 3)
+	reset, round := p.Func("bill", "Totals", "reset"), p.Func("bill", "Totals", "round")
+	if reset == nil || round == nil {
+		c.Ob("C04-R8", "UNRESOLVED:bill.Totals.reset/round", token.NoPos, false, "method not found")
+	} else {
+		assigned := func(fd *core.FuncDecl) map[*types.Var]token.Pos {
+			out := map[*types.Var]token.Pos{}
+			info := fd.Pkg.TypesInfo
+			recv := recvVar(fd)
+			ast.Inspect(fd.Decl.Body, func(n ast.Node) bool {
+				var lhs []ast.Expr
+				switch x := n.(type) {
+				case *ast.AssignStmt:
+					lhs = x.Lhs
+				case *ast.IncDecStmt:
+					lhs = []ast.Expr{x.X}
+				}
+				for _, l := range lhs {
+					l = ast.Unparen(l)
+					if st, ok := l.(*ast.StarExpr); ok {
+						l = ast.Unparen(st.X)
+					}
+					if f := core.FieldOf(info, l); f != nil && core.RootVar(info, l) == recv {
+						if se, ok := l.(*ast.SelectorExpr); ok && core.VarOf(info, se.X) == recv {
+							out[f] = l.Pos()
+						}
+					}
+				}
+				return true
+			})
+			return out
+		}
+		cleared := assigned(reset)
+		var fs []*types.Var
+		rounded := assigned(round)
+		for f := range rounded {
+			fs = append(fs, f)
+		}
+		sort.Slice(fs, func(i, j int) bool { return fs[i].Pos() < fs[j].Pos() })
+		for _, f := range fs {
+			_, ok := cleared[f]
+			c.Ob("C04-R8", "bill.Totals."+f.Name()+"#rounded-is-recalculated", rounded[f], ok,
+				"Totals.round rewrites "+f.Name()+", which Totals.reset leaves as it is: the member is an input of the next calculation, so calculating the result again starts from other data than the first time and need not reproduce it")
+		}
+	}
+	n := 0
+	for _, rel := range []string{"bill", "pay", "tax"} {
+		for _, fd := range p.Funcs(p.Pkg(rel)) {
+			info := fd.Pkg.TypesInfo
+			ast.Inspect(fd.Decl.Body, func(m ast.Node) bool {
+				as, ok := m.(*ast.AssignStmt)
+				if !ok || len(as.Lhs) != 1 || len(as.Rhs) != 1 {
+					return true
+				}
+				lf := core.FieldOf(info, as.Lhs[0])
+				call, isCall := ast.Unparen(as.Rhs[0]).(*ast.CallExpr)
+				if lf == nil || !isCall {
+					return true
+				}
+				fn := core.Callee(info, call)
+				if fn == nil || fn.Name() != "Of" || core.RecvNamed(fn) == nil || core.RecvNamed(fn).Obj().Name() != "Percentage" {
+					return true
+				}
+				root := core.RootVar(info, as.Lhs[0])
+				if root == nil || core.RootVar(info, core.RecvExpr(call)) != root {
+					return true
+				}
+				n++
+				bad := ""
+				for _, cond := range enclosingConds(fd.Decl.Body, as) {
+					ast.Inspect(cond, func(k ast.Node) bool {
+						if e, ok := k.(ast.Expr); ok && sameLoc(info, e, as.Lhs[0]) {
+							bad = types.ExprString(cond)
+						}
+						return true
+					})
+				}
+				c.Ob("C04-R9", fmt.Sprintf("%s#%s-rederived", fd.Name(), types.ExprString(as.Lhs[0])), as.Pos(), bad == "",
+					fmt.Sprintf("%s is derived from the percentage only when `%s`: once the first pass has stored the (rounded) result the next pass keeps it instead of deriving it again from the precise base, so a second calculation can give another document", types.ExprString(as.Lhs[0]), bad))
+				return true
+			})
+		}
+	}
+	if n == 0 {
+		c.Ob("C04-R9", "UNRESOLVED:derived-amounts", token.NoPos, false, "no amount derived from a percentage found in bill, pay, tax")
 	}
 }
